@@ -89,7 +89,7 @@ theorem push_within : ∀ (x : SVal) (b : B), Within (positions b) (push ext b x
       split
       · exact within_ann (self_mem_positions _) (NoCtx.within _)
       · exact pushNone_within c
-    | _ => exact NoCtx.within _
+    | _ => exact pushScalar_within ext _ _
   | .newtypeVariant _ i _ v, b => by
     unfold push
     refine within_ann (self_mem_positions _) ?_
@@ -130,9 +130,9 @@ theorem push_within : ∀ (x : SVal) (b : B), Within (positions b) (push ext b x
       refine Within.bind (NoCtx.within _) fun _ _ => Within.bind (NoCtx.within _) fun _ _ =>
         Within.bind (Within.mono ?_ (pushByteElems_within ext large bs el _)) fun _ _ => Within.of_ok _
       simp only [positions]; exact tail_sub'
-    | _ => exact NoCtx.within _
+    | _ => exact pushScalar_within ext _ _
   | .bool _, b | .int _ _, b | .f32 _, b | .f64 _, b | .char _, b | .str _, b => by
-    unfold push; exact within_ann (self_mem_positions _) (NoCtx.within _)
+    unfold push; exact within_ann (self_mem_positions _) (pushScalar_within ext _ _)
   | .unitStruct _, b => by
     unfold push
     split
